@@ -698,7 +698,7 @@ def extract_constant(code):
     code = extract_cte_pattern(code, contants,
                                "[^0-9a-zA-Z_][0-9]+[.]?[0-9]*e[+-]?[0-9]*[j]?")
     code = extract_cte_pattern(code, contants,
-                               "[^0-9a-zA-Z_][0-9]+[.]?[0-9]*[j]?")
+                               "[^0-9a-zA-Z_.][0-9]+[.]?[0-9]*[j]?")
     code = extract_cte_pattern(code, contants,
                                "[^0-9a-zA-Z_][0-9]*[.]?[0-9]+[j]?")
     return code, contants
